@@ -484,6 +484,7 @@ Definition r_fn (f : fn) : string :=
   | AddK k => "|x| addk(x, " ++ show_Z k ++ ")"
   | MulK k => "|x| mulk(x, " ++ show_Z k ++ ")"
   | Tag t => "|x| tag(x, " ++ r_str t ++ ")"
+  | ConstK k => "|x| " ++ show_Z k
   end.
 Definition r_pr (p : pr) : string :=
   match p with
@@ -587,6 +588,7 @@ Definition p_fn (ts : list N) : fn * list N :=
   | 0%N :: k :: r => (AddK (zof k), r)
   | 1%N :: k :: r => (MulK (zof k), r)
   | 2%N :: r => let '(x, r') := p_bytes r in (Tag x, r')
+  | 3%N :: k :: r => (ConstK (zof k), r)
   | _ => (AddK 0, [])
   end.
 Definition p_pr (ts : list N) : pr * list N :=
